@@ -131,10 +131,13 @@ Definition scan_stock := scan_all py_uni stock_root_rules.
 Definition k_comment : str := [99; 111; 109; 109; 101; 110; 116].
 Definition k_comment_end : str := [99; 111; 109; 109; 101; 110; 116; 95; 101; 110; 100].
 Definition k_raw_end : str := [114; 97; 119; 95; 101; 110; 100].
-Definition inner_with (block_var : str -> str -> option (list tok * nat)) (n rest : str) : option (list tok * nat) :=
-  if str_eqb n n_comment then inner_lazy py_uni k_comment k_comment_end bundled_comment_end rest
-  else if str_eqb n n_raw then inner_lazy py_uni k_data k_raw_end bundled_raw_end rest
+Definition inner_with_re (ce re_ : re) (block_var : str -> str -> option (list tok * nat)) (n rest : str) : option (list tok * nat) :=
+  if str_eqb n n_comment then inner_lazy py_uni k_comment k_comment_end ce rest
+  else if str_eqb n n_raw then inner_lazy py_uni k_data k_raw_end re_ rest
   else block_var n rest.
+Definition inner_with := inner_with_re bundled_comment_end bundled_raw_end.
+(* trim_blocks=True: the root rule is unchanged, the end rules of the comment / raw / block states get \n? *)
+Definition inner_with_trim := inner_with_re bundled_comment_end_trim bundled_raw_end_trim.
 
 (* occurrences of a marker opener  {%*  {{*  {#*  *)
 Definition is_delim_char (x : N) : bool := (x =? PERCENT) || (x =? LBRACE) || (x =? HASH).
